@@ -301,3 +301,49 @@ _m("C15", "Proved for all pairs of values: unordered_eq = true iff PermEq (equal
           "one-to-one so multiplicities count); PermEq is an equivalence implied by equality; the result is symmetric.",
    "Lookups inside unordered_eq are modelled as scans (justified by C06). No axioms.",
    "Coq proof (greedy matching = removal-based matching; soundness by bijection, completeness by an exchange argument) + correspondence on all small object pairs, permutations, shuffles and mutations")
+
+
+# ----------------------------------------------------------------------------- canonicalization
+def canon_known(case, impl, model, spec):
+    return None
+
+
+CANON_TRUST = [
+    "Flocq 4.1.0 (binary_round, binary_round_aux) and Coq.Floats.SpecFloat (SFdiv_core_binary): the correctly rounded "
+    "decimal->double conversion of Base/Float64.v is assembled from them; their correctness theorems depend on the four "
+    "standard-library axioms listed under allow_axioms",
+    "the implementation's number conversion (str::parse::<f64> of std, ryu-js Buffer::format_finite) is a dependency: "
+    "modelled as a section variable; its agreement with the executable reference canon_number is validated by this run",
+    "Vec::sort_by is a stable sort",
+]
+
+PROPS["C09"] = {
+    "id": "C09", "family": "c09", "allow_axioms": vf.FLOCQ_AXIOMS,
+    "nshards": {"quick": 16, "thorough": 16},
+    "nontrivial": lambda case, impl: len(case) > 12,
+    "rule": "numbers: 30 RFC 8785 / suite vectors; seeded decimals from eight classes: 17-30 digit significands with exponents "
+            "-320..280, the notation thresholds (1e21, 1e-6 and neighbours), subnormals and range ends, integers around 2^53, "
+            "2^64, 2^100 and 10^21, exact midpoints between adjacent doubles (computed with exact big-integer arithmetic) spelt "
+            "exactly or nudged by one unit in the last place either way, zero spellings and underflowing magnitudes, and grammar "
+            "random numbers. Keys: every permutation of 2-4 (quick) / 2-5 (thorough) members over a 22-key pool built around the "
+            "region where UTF-16 and code-point order disagree (U+E000..U+FFFF vs supplementary planes), plus empty, prefix and "
+            "control-character keys. Whole I-JSON documents (no duplicate keys, numbers in double range). Observable: the canonical "
+            "bytes; spec column: the RFC 8785 reference serializer jcs. Non-trivial: more than one token. distinct = distinct case lines.",
+    "trusted": CANON_TRUST,
+    "assumptions": ["I-JSON domain: no duplicate keys, every number's nearest double finite"],
+}
+PROPS["C10"] = {
+    "id": "C10", "family": "c10", "allow_axioms": vf.FLOCQ_AXIOMS,
+    "nshards": {"quick": 16, "thorough": 16},
+    "nontrivial": lambda case, impl: "{ $" in case or case.startswith("kk"),
+    "rule": "I-JSON documents canonicalised once and twice (idempotence), through Value::canonicalize and Object::canonicalize, "
+            "with every object of the result checked to answer indexes_of/get/index_of as a scan and its index buckets (hook) "
+            "to hold exactly the ascending positions of each key; each document against a rewriting of it (members shuffled at "
+            "every depth, every number exactly respelt: exponent shifting, trailing zeros, E/e/+, leading zero in the exponent); "
+            "every permutation of 2-4/2-5 members with nested reordered objects and respelt numbers; number pairs d / exact "
+            "respelling of d over the eight decimal classes of C09. Observable: the canonical value itself (compared with the "
+            "model's), the flags, and equality of the two canonical texts. Non-trivial: documents with an object, and all pairs. "
+            "distinct = distinct case lines.",
+    "trusted": CANON_TRUST,
+    "assumptions": ["I-JSON domain: no duplicate keys, every number's nearest double finite"],
+}
